@@ -7,14 +7,19 @@ import time
 from .core import VERIF, digest, AnalysisError
 
 OK, VIOLATED, UNKNOWN = 'discharged', 'violated', 'unknown'
+# rules whose verdicts never rest on what a local variable is called (roles resolved by shape, attributes, call
+# structure, arithmetic): their violations are exempt from the vocabulary guard
+ROBUST_RULES = ('PRED', 'ARGSWAP', 'DIVSAFE', 'SHARED', 'PURE', 'CACHEINV', 'NAMEUSE', 'ANGIDX', 'UNIQGUARD', 'NONETEST', 'FLAVOUR',
+                'SIGN', 'SELORDER', 'LAY', 'FIT', 'CHAIN', 'USE', 'POWNAME', 'TILE', 'DISPATCH', 'PAIR', 'REKEY', 'BIND', 'EXC')
 
 
 class Obligation(object):
-    __slots__ = ('rule', 'key', 'status', 'where', 'detail')
+    __slots__ = ('rule', 'key', 'status', 'where', 'detail', 'robust')
 
     def __init__(self, rule, key, status, where, detail):
         self.rule, self.key, self.status = rule, key, status
         self.where, self.detail = where, detail
+        self.robust = False     # True: the verdict does not rest on the name of any local variable (exempt from the vocabulary guard)
 
     @property
     def fullkey(self):
@@ -41,6 +46,7 @@ class Run(object):
         self.notes = []
         self.t0 = time.time()
         self._current_rule = None
+        self.robust_rules = set(ROBUST_RULES)
 
     @property
     def current_rule(self): return self._current_rule
@@ -60,8 +66,10 @@ class Run(object):
     def ok(self, key, detail=None, where=None, rule=None):
         self.obs.append(Obligation(rule or self.current_rule, key, OK, where, detail))
 
-    def violated(self, key, detail, where=None, rule=None):
-        self.obs.append(Obligation(rule or self.current_rule, key, VIOLATED, where, detail))
+    def violated(self, key, detail, where=None, rule=None, robust=False):
+        o = Obligation(rule or self.current_rule, key, VIOLATED, where, detail)
+        o.robust = robust or (rule or self.current_rule) in self.robust_rules
+        self.obs.append(o)
 
     def unknown(self, key, detail, where=None, rule=None):
         self.obs.append(Obligation(rule or self.current_rule, key, UNKNOWN, where, detail))
@@ -120,7 +128,9 @@ class Run(object):
         vt = vocab.load()
         cache = {}
         for o in self.obs:
-            if o.status != VIOLATED: continue
+            if o.status != VIOLATED or o.robust: continue
+            kf = known.get((self.pid, o.fullkey))
+            if kf is not None and kf.get('status') == 'known': continue      # confirmed by hand against the real code
             if o.rule not in cache: cache[o.rule] = vocab.missing_for(self, o.rule, vt)
             if cache[o.rule]:
                 q, gone = cache[o.rule][0]
